@@ -78,6 +78,18 @@ Section Walk.
   Definition order (fuel : nat) (ids : list Z) : status * list Z :=
     match order_from fuel ids [] with (s, _, out) => (s, out) end.
 
+  (* CompletedIndex: set to i after the walk of ids[i] returned nil; 0 before *)
+  Fixpoint completed_from (fuel : nat) (ids : list Z) (vis : list Z) (i cur : Z) : Z :=
+    match ids with
+    | [] => cur
+    | id :: rest =>
+        match walk fuel id [] vis with
+        | (SOk, vis', _) => completed_from fuel rest vis' (i + 1) i
+        | _ => cur
+        end
+    end.
+  Definition completed_index (fuel : nat) (ids : list Z) : Z := completed_from fuel ids [] 0 0.
+
   Definition has_history (id : Z) : bool :=
     match ds id with HFound _ => true | _ => false end.
 
